@@ -7,6 +7,7 @@ import (
 	"github.com/google/fhir/go/jsonformat"
 	dtpb "github.com/google/fhir/go/proto/google/fhir/proto/r4/core/datatypes_go_proto"
 	ppb "github.com/google/fhir/go/proto/google/fhir/proto/r4/core/resources/patient_go_proto"
+	"github.com/verily-src/fhirpath-go/internal/containedresource"
 	"github.com/verily-src/fhirpath-go/internal/element/reference"
 	"math/big"
 	"sort"
@@ -406,6 +407,67 @@ func init() {
 				{Name: "all-types-in-one-process", N: 1, Note: "the first 2 variants of all 146 types in one process: un-indexed and fully indexed navigation and the value of every primitive", Run: func(_ int, r *core.Rec) {
 					for _, tn := range names {
 						c02Navigate(r, names, tn, 2, 2, true)
+					}
+				}},
+				{Name: "absent-elements-over-mixed-types", N: 1, Note: "a Bundle and a contained list holding an Observation and a sparsely populated Patient (both orders): every element name of either type as the next step yields the elements that are there - nothing when the only type that has the name does not carry it - and never fails", Run: func(_ int, r *core.Rec) {
+					obs := lib.Observation()
+					sparse := &ppb.Patient{Id: fhir.ID("sparse"), Active: fhir.Boolean(true)}
+					jsonNames := func(m proto.Message) []string {
+						var out []string
+						fs := m.ProtoReflect().Descriptor().Fields()
+						for k := 0; k < fs.Len(); k++ {
+							out = append(out, strings.TrimSuffix(fs.Get(k).JSONName(), "Value"))
+						}
+						return out
+					}
+					nameSet := map[string]bool{}
+					for _, n := range append(jsonNames(obs), jsonNames(sparse)...) {
+						nameSet[n] = true
+					}
+					count := func(res fhir.Resource, name string) int {
+						rf := res.ProtoReflect()
+						fd := rf.Descriptor().Fields().ByJSONName(name)
+						if fd == nil || !rf.Has(fd) {
+							return 0
+						}
+						if fd.IsList() {
+							return rf.Get(fd).List().Len()
+						}
+						return 1
+					}
+					for _, order := range [][]fhir.Resource{{obs, sparse}, {sparse, obs}} {
+						b := &bcrpb.Bundle{}
+						carrier := &ppb.Patient{Id: fhir.ID("carrier")}
+						for _, res := range order {
+							b.Entry = append(b.Entry, &bcrpb.Bundle_Entry{Resource: containedresource.Wrap(res)})
+							a, _ := anypb.New(containedresource.Wrap(res))
+							carrier.Contained = append(carrier.Contained, a)
+						}
+						for name := range nameSet {
+							if name == "contained" || name == "text" {
+								continue
+							}
+							want := 0
+							for _, res := range order {
+								want += count(res, name)
+							}
+							for _, c := range []struct {
+								in  fhir.Resource
+								src string
+							}{{b, "Bundle.entry.resource." + c02Ident(name)}, {carrier, "Patient.contained." + c02Ident(name)}} {
+								got := lib.Run(c.src+".count() >= 0", []fhir.Resource{c.in}, nil)
+								cnt := lib.Run(c.src, []fhir.Resource{c.in}, nil)
+								r.Eval()
+								r.Eval()
+								r.State("absent-over-mixed")
+								r.Nontrivial(c.src, fmt.Sprint(want), cnt.Class())
+								if cnt.Panic != nil || !cnt.OK() || !got.OK() {
+									r.Fail("absent-element-over-mixed-types|fails|"+cnt.Class(), core.W{"src": c.src, "got": core.Short(cnt.String(), 200), "elements_present": want, "order": fmt.Sprintf("%T, %T", order[0], order[1])})
+								} else if name != "value" && name != "effective" && len(cnt.Coll) != want {
+									r.Fail("absent-element-over-mixed-types|count-differs", core.W{"src": c.src, "got_count": len(cnt.Coll), "elements_present": want})
+								}
+							}
+						}
 					}
 				}},
 				{Name: "navigation", N: len(names), Note: fmt.Sprintf("146 types x covering instances (depth %d, <=%d variants)", depth, maxVar), Run: func(i int, r *core.Rec) {
